@@ -206,7 +206,7 @@ theorem decCoinsSub_sorted (a b r : DecCoins) (h : decCoinsSub a b = .ok r) (ha 
 
 /-- the clamped subtraction of ONE coin that does not overdraw: exact subtraction -/
 theorem subtract_single_exact (d1s : DecCoins) (d : Denom) (x : Dec) (r : DecCoins)
-    (h : subtractDecCoinsWithRounding d1s (DecCoins.single d x) = .ok r) (hx : x ≤ DecCoins.amountOf d1s d) :
+    (h : subtractDecCoinsWithRounding d1s (DecCoins.single d x) = .ok r) (hx : x ≠ 0 → x ≤ DecCoins.amountOf d1s d) :
     (∀ d', DecCoins.sumOf r d' = DecCoins.sumOf d1s d' - (if d = d' then x else 0)) ∧
     (DecCoins.Sorted d1s → DecCoins.Sorted r) := by
   unfold subtractDecCoinsWithRounding DecCoins.single at h
@@ -215,6 +215,7 @@ theorem subtract_single_exact (d1s : DecCoins) (d : Denom) (x : Dec) (r : DecCoi
     injection h with h; subst h
     exact ⟨fun d' => by subst h0; split <;> omega, fun hs => hs⟩
   · simp only [h0, if_false, List.foldlM_cons, List.foldlM_nil] at h
+    have hx := hx h0
     have hng : ¬ (x > DecCoins.amountOf d1s d ∧ x - DecCoins.amountOf d1s d < one) := by
       intro hc; unfold Dec at *; omega
     simp only [hng, if_false, bind, Except.bind] at h
